@@ -32,6 +32,7 @@ type meshOpts struct {
 	withDNS            bool // nodes build their DNS responder (the socket is never opened)
 	forceRelay         bool // node 0 is lighthouse+relay and every endpoint pair lacks a direct path
 	secondRelay        bool // the last node is a second relay (not a lighthouse), advertised by the endpoints too
+	routines           int  // reader routines per node (0: one)
 }
 
 type meshWorld struct {
@@ -70,6 +71,7 @@ func buildMesh(rc *sk.RunCtx, o meshOpts) *meshWorld {
 	tp := rc.Tape
 	w := newSimWorld(rc)
 	w.withDNS = o.withDNS
+	w.routines = o.routines
 	mw := &meshWorld{simWorld: w, sent: map[uint64]*sentPkt{}, delivered: map[uint64]int{}, opts: o}
 	n := o.minNodes + tp.Choose(o.maxNodes-o.minNodes+1)
 	curve := cert.Curve_CURVE25519
